@@ -10,7 +10,7 @@
 import io
 import random
 
-from . import gen
+from . import gen, mine
 from .encode import encode_v2, kd_buf
 from .pairing import World, validate_streams, AUDIT, describe
 from .tlc import run_tlc
@@ -155,6 +155,35 @@ def run(ctx):
                 win_cases.append(('noisy%d_drop%d' % (i, cut), w, stream[cut:]))
         if i % (5 if ctx.quick else 2) == 0:
             pipeline_traces += pipeline_run(ctx, w, stream, 'noisy%d' % i)
+    # ---- (e) constants the decoder's own code mentions (mined from the working tree) in its START / END words, the
+    # operation with and without its lookups (absolute, relative, empty path), whole and as a single record
+    planted = 0
+    for name in names:
+        if AUDIT[name]['cls'] not in ('SYS0', 'SYS1', 'SYS2', 'SPAWN', 'RENAMEAT', 'LINKAT', 'SYMLINKAT', 'FSSNAP'):
+            continue
+        w = World(rnd, ts='any')
+        ok = mine.audit_allowed(AUDIT[name])
+        base = lambda: tuple(w.words(name, 'start')) + tuple(w.words(name, 'end'))      # noqa
+        for vec, pl in mine.plant_vectors(name, base, ok, rnd, budget=12 if ctx.quick else 120,
+                                          max_singles=150 if ctx.quick else 1200):
+            S, E = tuple(vec[:4]), tuple(vec[4:])
+            planted += 1
+            shape = planted % 4
+            if shape == 0:
+                st = [w.sys(name, 1, 1, S), w.sys(name, 2, 1, E)]
+            elif shape == 1:
+                st = [w.sys(name, 1, 1, S)] + w.lookup(1, rnd.choice([b'rel/path', b'/abs/path', b'x', b''])) + [w.sys(name, 2, 1, E)]
+            elif shape == 2:
+                st = [w.sys(name, 1, 1, S)] + w.lookup(1, b'/a/b') + w.lookup(1, b'c/d') + [w.sys(name, 2, 1, E)]
+            else:
+                # ONE record is both START and END word source: the planted words must be in both domains
+                one = list(w.words(name, 'single'))
+                for pos, wv in pl:
+                    if ok(pos % 4, wv) and ok(pos % 4 + 4, wv):
+                        one[pos % 4] = wv
+                st = [w.sys(name, rnd.choice([0, 3]), 1, tuple(one))]
+            win_cases.append(('planted_%s_%d' % (name, planted), w, st))
+    ctx.extra['planted_cases'] = planted
     validate_streams(ctx, win_cases, 'win', 'c07win')
     validate_streams(ctx, full_cases, 'full', 'c07full')
     ctx.sample({'case': win_cases[0][0], 'events': [a.abs for a in win_cases[0][2]]})
